@@ -54,10 +54,17 @@ def handle : Handler := fun j => do
     pure (verdict judge.isNone judge Json.null [if libErr then "inject-error" else "inject-ok"])
   | "validatetool" =>
     let exit ← getNat obs "exit"
-    let ok ← getBool lib "schemaok"
-    let judge := if exit == validateExit ok then none else
-      some (if ok then "validate-tool-rejects-valid-document" else "validate-tool-accepts-invalid-document")
-    pure (verdict judge.isNone judge Json.null [if ok then "doc-valid" else "doc-invalid"])
+    let oks ← (← getArr lib "schemaok").toList.mapM (·.getBool?)
+    let names ← (← getArr lib "names").toList.mapM (·.getStr?)
+    let lines ← (← getArr obs "stdout").toList.mapM (·.getStr?)
+    let allOK := oks.all id
+    let judge :=
+      if exit != validateExit oks then
+        some (if allOK then "validate-tool-rejects-valid-document" else "validate-tool-accepts-invalid-document")
+      else if lines != validateLines (names.zip oks) then some "validate-tool-output-differs-from-library-verdicts"
+      else none
+    pure (verdict judge.isNone judge Json.null
+      [if allOK then "docs-valid" else "some-doc-invalid", s!"docs{oks.length}"] )
   | _ => throw s!"cli: unknown op {op}"
 
 end Driver.Cli
